@@ -231,8 +231,11 @@ def _clear_module_caches(tw):
     """a path starts like a fresh process: memoising decorators (functools.lru_cache / cache) on repo functions are
     cleared, so that state carried from one explored path into the next cannot make re-execution non-deterministic
     (state carried from one CALL to the next inside a path is exactly what the history obligations look for)"""
+    import types as _types
     for m in list(tw.modules.values()):
         for v in list(vars(m).values()):
+            if isinstance(v, _types.ModuleType):
+                continue
             cc = getattr(v, 'cache_clear', None)
             if callable(cc):
                 try:
@@ -479,6 +482,8 @@ def _replay_once(mod, rec):
         for name, m in list(sys.modules.items()):
             if name == 'sempler' or name.startswith('sempler.') or name == 'drf' or name.startswith('drf.'):
                 for v in list(vars(m).values()):
+                    if type(v).__name__ == 'module':
+                        continue
                     cc = getattr(v, 'cache_clear', None)
                     if callable(cc):
                         cc()
